@@ -20,6 +20,42 @@ def _design(rep, tier, negs=()):
 
 def design_c01(rep, tier):
     _design(rep, tier, [("Neg_Pipeline_C01.cfg", "without the re-check of curated rows an unbalanced template survives")])
+    templates(rep, tier)
+
+
+def templates(rep, tier):
+    """Reagent templates (Templates.tla): why the re-check exists. The design fact (a neutral template preserves
+    balance) is checked on a bounded instance; the shipped tables and the real template functions are judged by
+    TLC against the model. Non-neutral shipped templates are listed in the evidence (they rely on the second
+    rule-based run and the re-check); a real function that does not do what the model says is model drift."""
+    import json
+    import os
+    rep.add_model(common.design_check("MC_Templates", "MC_Templates_quick.cfg" if tier == "quick" else "MC_Templates.cfg",
+                                      workers=12, timeout=3000),
+                  role="design (reagent templates): a template that is neutral w.r.t. the placeholders it replaces preserves balance")
+    rep.add_model(common.neg_check("MC_Templates", "Neg_Templates.cfg"),
+                  role="negative (reagent templates): an arbitrary template does not preserve balance")
+    wd = common.workdir("templates_%d" % os.getpid(), fresh=True)
+    log = os.path.join(wd, "templates.ndjson")
+    info = json.loads(common.run_driver("drv_templates", [log, tier]).strip().splitlines()[-1])
+    n, bad, st = common.validate_trace("Templates_Trace", log)
+    rep.add_trace_stats(n, st)
+    ev = {e["id"]: e for e in common.read_ndjson(log)}
+    not_neutral, drift = [], []
+    for eid, clause in bad:
+        e = ev[eid]
+        if clause == "TemplateNeutral":
+            not_neutral.append("%s/%s %s%s: %s" % (e["kind"], e["cls"], e["name"], "/" + e["variant"] if e["variant"] else "",
+                                                   e["t"]["text"]))
+        else:
+            drift.append({"clause": clause, "input": e.get("input"), "output": e.get("output"), "raised": e.get("raised")})
+    info.update({"shipped_templates_not_neutral": sorted(set(not_neutral)), "model_drift_count": len(drift),
+                 "model_drift": drift[:5]})
+    rep.extra["reagent_templates_model"] = info
+    for d in drift[:3]:
+        print("MODEL-DRIFT reagent templates: %s on %s" % (d["clause"], d["input"]))
+    import shutil
+    shutil.rmtree(wd, ignore_errors=True)
 
 
 def design_c02(rep, tier):
